@@ -135,10 +135,14 @@ def profile_sample(h, sample) -> list:
             if fn.startswith(src):
                 entered.add(f"{os.path.basename(fn)}:{frame.f_code.co_qualname}")
 
+    class _Args(dict):
+        def __missing__(self, key):
+            return 0
+
     choose.STATE.reset(sample["decisions"])
     sys.setprofile(prof)
     try:
-        h.fn(dict(sample.get("args") or {}), W.tier)
+        h.fn(_Args(sample.get("args") or {}), W.tier)
     except Exception:
         pass
     finally:
